@@ -381,7 +381,7 @@ func init() {
 		},
 		Assumptions: []string{"blockSize scaled to 32 (Level 1)", "statfs reports 16 GiB available (disk-full is outside the claim)", "live bytes = sizes held by the live index entries (in-package access)"},
 		Bounds: map[string]string{
-			"quick":    "K=2-3 ops over {Put,Delete,Restart,batch<=2,Merge}, pool 2 keys, value lengths {0,1,25}, DataFileSize symbolic in [40,160]; Stat checked after every step and after a final restart; plus: skip-list/mmap/multi-shard; Merge+restart; 12 files; N staged Put+Delete cycles inside a batch before a filler near DataFileSize; the merge-ratio policy (256 MiB floor scaled to 20 bytes, ratio 0.5) against Stat",
+			"quick":    "K=2-3 ops over {Put,Delete,Restart,batch<=2,Merge}, pool 2 keys, value lengths {0,1,25}, DataFileSize symbolic in [40,160]; Stat checked after every step and after a final restart; plus: skip-list/mmap/multi-shard; Merge+restart; 12 files; N staged Put+Delete cycles inside a batch before a filler near DataFileSize; the merge-ratio policy (256 MiB floor scaled to 20 bytes, ratio 0.5) against Stat; one batch of <=3 operations with value lengths {0,1,25,60,90} and DataFileSize in [150,200] (mid-batch flush forced by a re-staged key; maxFinRecord=70 is not scaled)",
 			"thorough": "K=3-4 with restarts mixed in, mmap",
 		},
 		Outside: "histories longer than K; the inductive counter step at real geometry (not built)",
@@ -701,10 +701,10 @@ func init() {
 			"a truncated log may roll back to an earlier state (C03 requires exactly that): 'served as data' = a value that was once written for that key",
 			"blockSize scaled to 32 (Level 1)"},
 		Bounds: map[string]string{
-			"quick":    "garbage files of every size 0..16 with fully symbolic content through NextLogRecord/NextHintRecord/ReadRecordValue(at any offset)/ReadMergeFinRecord; databases of K=1-2 ops (Put/Delete/batch, rotated files, multi-chunk value, finished merge awaiting adoption incl. hint file and marker) with every single-site damage of every file, then Open, Get of every key, Fold, ListKeys",
+			"quick":    "garbage files of every size 0..16 with fully symbolic content through NextLogRecord/NextHintRecord/ReadRecordValue(at any offset)/ReadMergeFinRecord; databases of K=1-2 ops (Put/Delete/batch, rotated files, multi-chunk value, finished merge awaiting adoption incl. hint file and marker) with every single-site damage of every file, then Open, Get of every key, Fold, ListKeys; plus damage applied while the database is OPEN (records in separate files, one file, and a two-chunk value read back through the point-read path)",
 			"thorough": "garbage up to 40 bytes, K=3 histories, mmap reader",
 		},
-		Outside: "CRC-32 collisions; multi-site damage that also rewrites the checksum; adversarial splicing of valid chunks; damage while the database is open; the oracle accepts any value that was once written for the key (a truncated log legitimately rolls back), so damage that makes the engine silently fall back to an OLDER value is noticed only through vanished error paths (reach labels), not as a violation (seeded change S127)",
+		Outside: "CRC-32 collisions; multi-site damage that also rewrites the checksum; adversarial splicing of valid chunks; damage while the database is open beyond the three live jobs; the oracle accepts any value that was once written for the key (a truncated log legitimately rolls back), so damage that makes the engine silently fall back to an OLDER value is noticed only through vanished error paths (reach labels), not as a violation (seeded change S127)",
 		Stubs:   stubsCommon,
 	})
 }
